@@ -1126,6 +1126,7 @@ func forcedDeadlock(args []string) int {
 		fmt.Sprintf("requester: attempt 0 sent and registered; handler latency %d ms > timeout %d ms", tms+tms/2, tms),
 		"requester: timer fires (req.timerFired) -> HOLD before it takes resMu to unregister",
 		"late response: onResponse(id) takes resMu (res.locked), finds the entry, reaches res.beforeDeliver (ch <- resp)",
+		"a duplicate of the late response arrives 40 ms later, while the first copy is unread and the requester still held",
 		"release requester: it needs resMu to delete resCh[id]",
 		"watchdog: the call (retries answer immediately) and a fresh independent RequestFrom must return within (retries+1)*timeout+slack",
 	}
@@ -1171,7 +1172,9 @@ func forcedDeadlock(args []string) int {
 	slack := 3 * time.Second
 	bound := time.Duration(R+1)*T + slack
 	late := int((T + T/2).Microseconds())
-	cs := callSpec{Call: 1, Payload: reqPayload{N: 1, Lat: []int{late, 0}, Dup: []int{-1}}, CancelUs: -1}
+	// ... and a DUPLICATE of that late response 40 ms after it: it finds the entry still registered and the first copy unread
+	// in the channel - it must be dropped (or buffered), never waited for under the lock
+	cs := callSpec{Call: 1, Payload: reqPayload{N: 1, Lat: []int{late, 0}, Dup: []int{late + 40000, -1}}, CancelUs: -1}
 	xdone := make(chan callResult, 1)
 	go func() { xdone <- doCall(rec, p, cs, 2*bound+8*time.Second) }()
 	select {
